@@ -4,7 +4,11 @@ package main
 // peer.  Scenarios on a real routing.Core per routing algorithm (epidemic, spray, binary_spray,
 // prophet, dtlsr with broadcast bundles, sensor-mule over epidemic) with 1..5 peers: receptions
 // with any previous node, submissions, peers appearing / disappearing (also a second convergence
-// sender for the same peer), retry ticks, scripted send failures, restarts.  Observable: the
+// sender for the same peer), retry ticks, scripted send failures, restarts; bundles that LEAVE the
+// store (direct delivery to the connected destination, expiry + store cleaning of a clock-less
+// bundle) and are then RECEIVED AGAIN from another peer (op rerecv: same bundle ID, new previous
+// node), also while the spray algorithms still keep stale metadata (op gc runs their collection).
+// Observable: the
 // per-peer log of (bundle, outcome) of every ConvergenceSender.Send, plus - for the
 // correspondence with the model - the store's holdings and the algorithm's `sent` list.
 
@@ -21,11 +25,12 @@ import (
 const slBroadcast = "dtn://routing/dtlsr/broadcast/"
 
 type slOp struct {
-	kind  string // recv submit up up2 down tick restart failon failoff
+	kind  string // recv submit up up2 down tick restart failon failoff rerecv expire gc
 	b     int    // bundle index
 	prev  int    // 0 none, 1..5 peer, 9 another node
 	recvr int    // 0 the node itself, i = peer i (the mule lets a sensor have what it "received" for)
-	dest  int    // 0 elsewhere, i = peer i's node (direct delivery while connected)
+	dest  int    // 0 elsewhere, i = peer i's node (direct delivery while connected), 7 = an endpoint of this node
+	zt    bool   // clock-less bundle: zero creation time + bundle age block (its store expiry counts from the arrival)
 	noblk bool   // binary spray: the received bundle carries no binary-spray block
 	lsts  uint64 // dtlsr: the received broadcast carries a DTLSR block from originator dtn://lso/ with this timestamp (0 = no block)
 	p     int
@@ -40,6 +45,8 @@ type slScen struct {
 	failing [6]bool
 	ids     map[string]int
 	bids    map[int]bpv7.BundleID
+	prims   map[int]bpv7.PrimaryBlock // primary block of bundle i as it entered the node (submissions: as numbered by the node)
+	ops     map[int]slOp              // the operation that brought bundle i
 	mark    int
 	fields  []S
 }
@@ -76,6 +83,9 @@ func slConf(algo string) routing.RoutingConf {
 }
 
 func (x *slScen) destOf(op slOp) string {
+	if op.dest == 7 {
+		return "dtn://n0/inbox"
+	}
 	if op.dest != 0 {
 		return x.eid(op.dest) + "inbox"
 	}
@@ -160,45 +170,109 @@ func (x *slScen) conn() S {
 	return LL(l)
 }
 
+// recvBlocks: the extension blocks of a bundle handed in by a convergence layer
+func (x *slScen) recvBlocks(bl *bpv7.BundleBuilder, op slOp, age uint64) *bpv7.BundleBuilder {
+	switch {
+	case op.prev >= 1 && op.prev <= 5:
+		bl = bl.PreviousNodeBlock(x.eid(op.prev))
+	case op.prev == 9:
+		bl = bl.PreviousNodeBlock("dtn://other/")
+	}
+	if x.algo == "binary_spray" && !op.noblk {
+		bl = bl.Canonical(bpv7.NewBinarySprayBlock(8))
+	}
+	if x.algo == "dtlsr" && op.lsts != 0 {
+		bl = bl.Canonical(bpv7.NewDTLSRBlock(bpv7.DTLSRPeerData{ID: MustEID("dtn://lso/"), Timestamp: bpv7.DtnTime(op.lsts),
+			Peers: map[bpv7.EndpointID]bpv7.DtnTime{MustEID("dtn://lsp/"): 0}}))
+	}
+	if op.zt {
+		bl = bl.BundleAgeBlock(age)
+	}
+	return bl
+}
+
 func (x *slScen) do(op slOp) {
 	n := x.n
 	head := []S{Sym(op.kind)}
 	switch op.kind {
+	case "rerecv":
+		// the same bundle (same source, creation timestamp, sequence number) arrives again, relayed by
+		// another node: new previous node, fresh spray block, (clock-less: a smaller age - a faster path)
+		pb, ok := x.prims[op.b]
+		if !ok {
+			panic("rerecv of an unknown bundle")
+		}
+		orig := x.ops[op.b]
+		rop := orig
+		rop.prev, rop.recvr, rop.noblk = op.prev, op.recvr, op.noblk
+		bl := bpv7.Builder().CRC(bpv7.CRC32).Source(pb.SourceNode).Destination(pb.Destination).Lifetime(time.Hour).
+			CreationTimestampNow().PayloadBlock([]byte("B" + strconv.Itoa(op.b)))
+		b, err := x.recvBlocks(bl, rop, 1000).Build()
+		if err != nil {
+			panic(err)
+		}
+		b.PrimaryBlock.CreationTimestamp = pb.CreationTimestamp
+		if b.ID() != x.bids[op.b] {
+			panic("rerecv: bundle ID differs")
+		}
+		held := n.Knows(b.ID())
+		from := n.ID
+		if op.recvr != 0 {
+			from = MustEID(x.eid(op.recvr))
+		}
+		n.Event++
+		n.Core.VerifReceive(b, from)
+		head = append(head, I(op.b), I(op.prev), I(op.recvr), I(orig.dest), B(x.algo != "binary_spray" || !op.noblk), B(held))
+	case "expire":
+		// the bundle's time in the store runs out (the item's expiry instant is moved into the past), then
+		// the clean_store job runs
+		st := n.Core.VerifStore()
+		if bid, ok := x.bids[op.b]; ok {
+			if bi, err := st.QueryId(bid); err == nil {
+				bi.Expires = time.Now().Add(-time.Second)
+				if err := st.Update(bi); err != nil {
+					panic(err)
+				}
+			}
+		}
+		n.TickClean()
+		head = append(head, I(op.b))
+	case "gc":
+		n.Core.VerifSprayGC()
 	case "recv", "submit":
 		src := "dtn://src" + strconv.Itoa(op.b) + "/app"
 		if op.kind == "submit" {
 			src = "dtn://n0/app"
 		}
 		bl := bpv7.Builder().CRC(bpv7.CRC32).Source(src).Destination(x.destOf(op)).Lifetime(time.Hour).
-			CreationTimestampNow().PayloadBlock([]byte("B" + strconv.Itoa(op.b)))
+			PayloadBlock([]byte("B" + strconv.Itoa(op.b)))
+		if op.zt && op.kind == "recv" {
+			bl = bl.CreationTimestampEpoch()
+		} else {
+			bl = bl.CreationTimestampNow()
+		}
 		if op.kind == "recv" {
-			switch {
-			case op.prev >= 1 && op.prev <= 5:
-				bl = bl.PreviousNodeBlock(x.eid(op.prev))
-			case op.prev == 9:
-				bl = bl.PreviousNodeBlock("dtn://other/")
-			}
-			if x.algo == "binary_spray" && !op.noblk {
-				bl = bl.Canonical(bpv7.NewBinarySprayBlock(8))
-			}
-			if x.algo == "dtlsr" && op.lsts != 0 {
-				bl = bl.Canonical(bpv7.NewDTLSRBlock(bpv7.DTLSRPeerData{ID: MustEID("dtn://lso/"), Timestamp: bpv7.DtnTime(op.lsts),
-					Peers: map[bpv7.EndpointID]bpv7.DtnTime{MustEID("dtn://lsp/"): 0}}))
-			}
+			bl = x.recvBlocks(bl, op, 3500000)
 		}
 		b, err := bl.Build()
 		if err != nil {
 			panic(err)
 		}
+		if op.zt && op.kind == "recv" {
+			b.PrimaryBlock.CreationTimestamp[1] = uint64(op.b)
+		}
+		x.ops[op.b] = op
 		n.Event++
 		if op.kind == "submit" {
 			n.Core.SendBundle(&b) // the node numbers the bundle in place
 			x.ids[b.ID().String()] = op.b
 			x.bids[op.b] = b.ID()
+			x.prims[op.b] = b.PrimaryBlock
 			head = append(head, I(op.b), I(op.dest))
 		} else {
 			x.ids[b.ID().String()] = op.b
 			x.bids[op.b] = b.ID()
+			x.prims[op.b] = b.PrimaryBlock
 			from := n.ID
 			if op.recvr != 0 {
 				from = MustEID(x.eid(op.recvr))
@@ -238,7 +312,8 @@ func (x *slScen) do(op slOp) {
 }
 
 func slRunScen(o *Out, name, algo string, npeers int, sensors, high []int, ops []slOp) {
-	x := &slScen{algo: algo, npeers: npeers, ids: map[string]int{}, bids: map[int]bpv7.BundleID{}}
+	x := &slScen{algo: algo, npeers: npeers, ids: map[string]int{}, bids: map[int]bpv7.BundleID{},
+		prims: map[int]bpv7.PrimaryBlock{}, ops: map[int]slOp{}}
 	for _, s := range sensors {
 		x.sensor[s] = true
 	}
@@ -280,6 +355,12 @@ func slNewOp(algo string, b, prev int, r *Rng) slOp {
 	return slOp{kind: "recv", b: b, prev: prev}
 }
 
+func first2(algo string) slOp {
+	op := slNewOp(algo, 1, 9, nil)
+	op.dest = 3
+	return op
+}
+
 func genC13sentlist(o *Out, r *Rng, thorough bool) {
 	defer fastWorkDir("verif-c13-")()
 	up := func(p int) slOp { return slOp{kind: "up", p: p} }
@@ -311,6 +392,29 @@ func genC13sentlist(o *Out, r *Rng, thorough bool) {
 	// newer one, and one with an equal timestamp): each is still relayed, never back to where it came from
 	slRunScen(o, "dtlsr-outdated-linkstate", "dtlsr", 3, nil, nil, []slOp{up(1), up(2), up(3),
 		{kind: "recv", b: 1, prev: 1, lsts: 1000}, {kind: "recv", b: 2, prev: 2, lsts: 500}, {kind: "recv", b: 3, prev: 3, lsts: 1000}, tick})
+	// a bundle that left the node and comes back from ANOTHER neighbour: relayed, delivered directly to its
+	// destination (deleted), destination gone, received again; the same after its time in the store ran
+	// out (clock-less bundle, store cleaned); a duplicate while the first copy is still held
+	for _, algo := range slAlgos {
+		var sens []int
+		if algo == "mule" {
+			sens = []int{5}
+		}
+		first := slNewOp(algo, 1, 1, nil)
+		if algo != "dtlsr" { // a DTLSR bundle for one node is not a broadcast bundle (single next hop: not this property)
+			first.dest = 4
+			slRunScen(o, "back-after-direct", algo, 4, sens, slAll(4), []slOp{up(1), up(2), up(3), first, up(4), {kind: "down", p: 4},
+				{kind: "rerecv", b: 1, prev: 3}, tick, {kind: "down", p: 1}, up(1), tick})
+			slRunScen(o, "back-after-direct-gc", algo, 3, sens, slAll(3), []slOp{up(1), up(2), {kind: "failon", p: 2}, first2(algo), up(3), {kind: "down", p: 3},
+				{kind: "gc"}, {kind: "failoff", p: 2}, {kind: "rerecv", b: 1, prev: 2}, {kind: "rerecv", b: 1, prev: 1}, tick})
+		}
+		first = slNewOp(algo, 1, 1, nil)
+		first.zt = true
+		slRunScen(o, "back-after-expiry", algo, 3, sens, slAll(3), []slOp{up(1), up(2), first, {kind: "expire", b: 1},
+			{kind: "rerecv", b: 1, prev: 2}, up(3), tick})
+		slRunScen(o, "back-while-held", algo, 3, sens, slAll(3), []slOp{up(1), up(2), slNewOp(algo, 1, 1, nil),
+			{kind: "rerecv", b: 1, prev: 2}, up(3), tick})
+	}
 	// direct delivery bypasses the algorithm
 	slRunScen(o, "direct", "epidemic", 2, nil, nil, []slOp{up(1), {kind: "recv", b: 1, prev: 9, dest: 2}, up(2), tick})
 
@@ -332,11 +436,37 @@ func genC13sentlist(o *Out, r *Rng, thorough bool) {
 			}
 			var ops []slOp
 			nb := 0
+			clockless := map[int]bool{}
+			dests := map[int]int{}
 			conn := map[int]bool{}
 			two := map[int]bool{} // a second convergence sender of the peer is registered
 			fail := map[int]bool{}
 			ln := 5 + r.Intn(10)
 			for i := 0; i < ln; i++ {
+				if nb > 0 && r.Intn(6) == 0 {
+					// a bundle comes back (from a peer, from elsewhere, without a previous node), its time in
+					// the store runs out, or the spray metadata is collected
+					b := 1 + r.Intn(nb)
+					switch k := r.Intn(6); {
+					case k < 3:
+						op := slOp{kind: "rerecv", b: b, prev: []int{0, 9, 1 + r.Intn(np), 1 + r.Intn(np), 1 + r.Intn(np)}[r.Intn(5)]}
+						if op.prev == dests[b] {
+							op.prev = 9 // the destination itself does not relay the bundle back
+						}
+						if algo == "binary_spray" && r.Intn(6) == 0 {
+							op.noblk = true
+						}
+						if algo == "mule" && len(sens) > 0 && r.Intn(3) == 0 {
+							op.recvr = sens[r.Intn(len(sens))]
+						}
+						ops = append(ops, op)
+					case k < 5 && clockless[b]:
+						ops = append(ops, slOp{kind: "expire", b: b})
+					default:
+						ops = append(ops, slOp{kind: "gc"})
+					}
+					continue
+				}
 				switch q := r.Intn(20); {
 				case q < 5:
 					p := 1 + r.Intn(np)
@@ -363,12 +493,19 @@ func genC13sentlist(o *Out, r *Rng, thorough bool) {
 					if op.kind == "recv" && algo == "mule" && len(sens) > 0 && r.Intn(3) == 0 {
 						op.recvr = sens[r.Intn(len(sens))]
 					}
-					if algo != "dtlsr" && r.Intn(8) == 0 {
+					if algo != "dtlsr" && r.Intn(4) == 0 {
 						d := 1 + r.Intn(np)
 						if d != op.prev {
 							op.dest = d
 						}
+					} else if algo != "dtlsr" && r.Intn(12) == 0 {
+						op.dest = 7
 					}
+					if op.kind == "recv" && r.Intn(3) == 0 {
+						op.zt = true
+						clockless[nb] = true
+					}
+					dests[nb] = op.dest
 					ops = append(ops, op)
 				case q < 13:
 					ops = append(ops, tick)
